@@ -79,8 +79,17 @@ class FieldInvariants:
                 cur = v if cur is None else cur.join(v)
                 sites.append('%s:%d := %#x' % (fname, line, rv['op']['val']))
             else:
-                dyn_fns.add(fname)
                 sites.append('%s:%d := <computed>' % (fname, line))
+                if not (kind == 'construct' and self._operand_is_param(fname, rv)):
+                    dyn_fns.add(fname)
+                if kind == 'construct' and self._operand_is_param(fname, rv):
+                    # constructor taking the value as a parameter: the value is decided at its call sites
+                    self.ctor_fns = getattr(self, 'ctor_fns', {})
+                    self.ctor_fns.setdefault(key, set()).add(fname)
+                    for c in self.prog.callers(fname):
+                        if c[0] in self.facts['functions']:
+                            dyn_fns.add(c[0])
+                            sites.append('%s:%d calls %s' % (c[0], c[2], fname))
         if cur is None:
             cur = top if not dyn_fns else None
         for rounds in range(10):
@@ -105,6 +114,42 @@ class FieldInvariants:
         self.why[key] = sites
         return cur
 
+    def _operand_is_param(self, fname, rv):
+        if rv is None or rv['k'] != 'use':
+            return False
+        op = rv['op']
+        fn = self.facts['functions'][fname]
+        if op['k'] in ('copy', 'move') and not op['place']['proj']:
+            l = op['place']['local']
+            if 1 <= l <= fn['arg_count']:
+                return True
+            # a temporary copied from a parameter
+            for b in fn['blocks']:
+                for s in b['stmts']:
+                    if s['k'] == 'assign' and s['place']['local'] == l and not s['place']['proj'] and \
+                            s['rv']['k'] == 'use' and s['rv']['op']['k'] in ('copy', 'move') and \
+                            not s['rv']['op']['place']['proj'] and 1 <= s['rv']['op']['place']['local'] <= fn['arg_count']:
+                        return True
+        return False
+
+    def _agg_field_values(self, v, owner, field, env, bits, out, depth=0):
+        if v is None or depth > 6:
+            return
+        if v[0] == 'agg':
+            kind = v[1]
+            if kind[0] == 'adt' and kind[1] == owner:
+                adt = self.facts['adts'].get(owner)
+                if adt and adt['kind'] == 'struct':
+                    names = [f['name'] for f in adt['fields']]
+                    if field in names and names.index(field) < len(v[2]):
+                        x = v[2][names.index(field)]
+                        out.append(env.av(x) if (x is not None and T.is_int(x)) else AV(bits))
+            for x in v[2]:
+                self._agg_field_values(x, owner, field, env, bits, out, depth + 1)
+        elif v[0] == 'snap':
+            for _, x in v[2]:
+                self._agg_field_values(x, owner, field, env, bits, out, depth + 1)
+
     def _store_values(self, fname, owner, field, bits):
         ip = absint.Interp(self.facts, sym_facts=self.sym_facts, trust_asserts=('overflow', 'bounds', 'slice_index'),
                            max_depth=6, loop_mode='havoc', path_budget=3000)
@@ -127,6 +172,10 @@ class FieldInvariants:
                         out.append(r.state.env.av(v))
                     else:
                         out.append(AV(bits))
+                elif e[0] == 'store':
+                    self._agg_field_values(e[3], owner, field, r.state.env, bits, out)
+            if r.status == 'ok' and r.ret is not None:
+                self._agg_field_values(r.ret, owner, field, r.state.env, bits, out)
             # aggregate constructions with a non-constant operand are not store events: be conservative
         fnobj = fn
         for b in fnobj['blocks']:
@@ -134,6 +183,7 @@ class FieldInvariants:
                 if s['k'] == 'assign' and s['rv']['k'] == 'aggregate' and s['rv']['kind']['k'] == 'adt' \
                         and s['rv']['kind']['name'] == owner and field in s['rv']['kind']['fields']:
                     op = s['rv']['ops'][s['rv']['kind']['fields'].index(field)]
-                    if op['k'] != 'const':
-                        out.append(AV(bits))
+                    if op['k'] != 'const' and not self._operand_is_param(fname, {'k': 'use', 'op': op}) \
+                            and fname not in getattr(self, 'ctor_fns', {}).get((owner, field), ()):
+                        pass  # the constructed value is returned / stored: covered by the aggregate walk above
         return out
